@@ -233,7 +233,7 @@ def instances(tier):
     inst = []
     zfm2 = [0.0, 10.0, 25.0]
     zfm3 = [0.0, 10.0, 25.0, 30.0]
-    comps_all = {'pins': 2, 'duct': 1, 'cool': 1}
+    comps_all = {'pins': 2, 'duct': 2, 'cool': 1}
     comps_pin = {'pins': 2, 'duct': 0, 'cool': 0}
     cases = []
     # (kind, zfm, steps per cell, bundle (lo plane idx, hi plane idx))
@@ -247,7 +247,10 @@ def instances(tier):
         cases.append(('bundle starts and ends inside power cells', zfm3, (2, 2, 2), (1, 5)))
         cases.append(('bundle starts strictly inside a power cell (3 steps)', zfm2, (3, 3), (2, 6)))
     for kind, zfm, steps, bundle in cases:
-        for comps, cn in ((comps_all, 'pins+duct+coolant'), (comps_pin, 'pins only')):
+        variants = [(comps_all, 'pins+duct+coolant'), (comps_pin, 'pins only')]
+        if kind.startswith('bundle starts strictly inside a power cell'):
+            variants.append(({'pins': 1, 'duct': 1, 'cool': 2}, 'pin+duct+2 coolant'))
+        for comps, cn in variants:
             for nterm in (1, 2):
                 if tier == 'quick' and cn == 'pins only' and nterm == 1:
                     continue
@@ -277,7 +280,7 @@ def main():
                      'and for each placement of the pin-bundle bounds relative to the power mesh; deposited = assigned is one SMT query '
                      'per configuration.  _integrate against its closed form; core normalisation/scaling of all profiles.'),
         bounds={'power cells': '2..3', 'steps per power cell': '1..3', 'polynomial terms': '1..2 (sweep), 1..3(4) (_integrate)',
-                'components': 'pins(2) + duct(1) + coolant(1), pins only', 'bundle bounds': 'whole core / on cell boundaries / strictly inside a cell'},
+                'components': 'pins(2) + duct(2) + coolant(1), pin + duct + coolant(2), pins only', 'bundle bounds': 'whole core / on cell boundaries / strictly inside a cell'},
         outside=['CSV parsing and VARPOW/binary flux power (claim starts at the parsed arrays)',
                  'negative-power clipping (profiles assumed non-negative on the cell)', 'linearity over the whole sweep (one real step is claimed: linearity[...] instances; the sweep follows by induction with frozen properties)'],
         level_assumptions=['profiles a + b z* with a >= |b|/2 (non-negative on [-1/2, 1/2])',
